@@ -93,6 +93,12 @@ def build_arg(w, st, j):
         kind, lst = j["__ivs__"]
         if lst is None:
             return None
+        if kind.endswith(".dd"):
+            # a dict subclass with __missing__ (collections.defaultdict): reading an absent key would insert it
+            import collections
+            base = build_arg(w, st, {"__ivs__": [kind[:-3], lst]})
+            factory = (lambda: (0.0, 1.0)) if kind.startswith("lganm") else (lambda: w.fn(["noise.zero"]))
+            return collections.defaultdict(factory, base)
         if kind == "lganm":
             return dict((t, tuple(v) if isinstance(v, list) else v) for t, v in lst)
         if kind == "lganm.npkeys":
@@ -133,7 +139,7 @@ def model_ctor(w, st, mtype, params):
     """params: dict name -> python value (caller-owned).  Returns callable doing the construction."""
     S = w.sempler
     if mtype == "lganm":
-        return lambda: S.LGANM(params["W"], params["means"], params["variances"], random_state=dec(params.get("seed")))
+        return lambda: S.LGANM(params["W"], params["means"], params["variances"], random_state=G.seed_object(w, params.get("seed")))
     if mtype == "nd":
         if params.get("check_valid"):
             import warnings
@@ -260,7 +266,8 @@ def call_method(w, st, obj, mtype, method, a, seed, argvals=None):
             v = a.get(short, "omit")
             if v == "omit":
                 continue
-            kw[name] = build_arg(w, st, {"__ivs__": ["lganm.npkeys" if a.get("npkeys") else "lganm", v]})
+            kw[name] = build_arg(w, st, {"__ivs__": [("lganm.npkeys" if a.get("npkeys") else "lganm") +
+                                                      (".dd" if a.get("defaultdict") else ""), v]})
             args.append(kw[name])
         if a.get("population"):
             kw["population"] = True
@@ -274,7 +281,7 @@ def call_method(w, st, obj, mtype, method, a, seed, argvals=None):
             v = a.get(short, "omit")
             if v == "omit":
                 continue
-            kw[name] = build_arg(w, st, {"__ivs__": ["anm", v]})
+            kw[name] = build_arg(w, st, {"__ivs__": ["anm" + (".dd" if a.get("defaultdict") else ""), v]})
             args.append(kw[name])
         _same_dict(a, kw, args)
         return (lambda: obj.sample(a["n"], random_state=seed, **kw)), args
@@ -296,6 +303,15 @@ def call_method(w, st, obj, mtype, method, a, seed, argvals=None):
     if method == "str":
         return (lambda: str(obj)), args
     raise ValueError(method)
+
+
+def canonical_args(a):
+    """Equal intervention dicts are the same argument whatever their insertion order or container class."""
+    a = {k: v for k, v in a.items() if k not in ("defaultdict",)}
+    for kind in ("do", "shift", "noise"):
+        if isinstance(a.get(kind), list):
+            a[kind] = sorted(a[kind], key=lambda tv: tv[0])
+    return a
 
 
 def _same_dict(a, kw, args):
@@ -352,7 +368,7 @@ def h_m_call(w, st, rec):
     obj, mtype, method = m["obj"], m["type"], rec["method"]
     site = method_site(mtype, method)
     a = rec.get("args", {})
-    fn, args = call_method(w, st, obj, mtype, method, a, dec(rec.get("seed")))
+    fn, args = call_method(w, st, obj, mtype, method, a, G.seed_object(w, rec.get("seed")))
     pre = [digest(x) for x in args]
     out = w.call(fn, arm=rec.get("arm"))
     seam_calls = dict(w.last_seam_calls)
@@ -371,7 +387,7 @@ def h_m_call(w, st, rec):
         if any_alias(res_arrays, all_model_arrays(st)):
             w.violate("result_aliases_model", site, {"what": "returned storage shares memory with a live model"})
     if comparable(rec):
-        key = jkey({"spec": m["spec"], "method": method, "args": a, "seed": rec.get("seed")})
+        key = jkey({"spec": m["spec"], "method": method, "args": canonical_args(a), "seed": rec.get("seed")})
         ok = compare_history(w, st, key, rec, out, site)
         if key not in st.oblig:
             st.oblig[key] = {"ops": [{"op": "m.new.private", "spec": m["spec"]},
@@ -393,7 +409,7 @@ def h_m_call(w, st, rec):
     if rec.get("sweep") and rec.get("arm") is None:
         for seam in sorted(seam_calls):
             for k in range(1, seam_calls[seam] + 1):
-                fn2, args2 = call_method(w, st, obj, mtype, method, a, dec(rec.get("seed")))
+                fn2, args2 = call_method(w, st, obj, mtype, method, a, G.seed_object(w, rec.get("seed")))
                 out2 = w.call(fn2, arm=[seam, k, rec.get("sweep_exc", "MemoryError")])
                 w.probes["sweep.fault_positions"] += 1
                 m["fmask"] |= 4
@@ -425,7 +441,7 @@ def twin_compare(w, st, m, rec, out, site):
     t = w.call(model_ctor(w, st, m["type"], tp))
     if t[0] != "ok":
         return
-    fn, _ = call_method(w, st, t[1], m["type"], rec["method"], rec.get("args", {}), dec(rec.get("seed")))
+    fn, _ = call_method(w, st, t[1], m["type"], rec["method"], rec.get("args", {}), G.seed_object(w, rec.get("seed")))
     out2 = w.call(fn)
     w.probes["history.aged_vs_twin"] += 1
     if outcome_digest(*out) != outcome_digest(*out2) and not equalish(plain(out[1]), plain(out2[1])):
@@ -957,7 +973,9 @@ def gen_model(g, gs, cfg, ops, c, invalid=False):
         W = A
         rec["A"] = arg(cast(A, g.choice(["<f8", "<f8", "<i8", "<i8", "|b1"]), g), must_nd=True, role="graph")
         rec["assign"] = [G.rand_assign_spec(g, allow_param=True) for _ in range(p)]
-        rec["noise"] = [G.rand_noise_spec(g) if g.random() < 0.75 else ["paramnoise", G.r2(g, -1, 1), G.r2(g, 0.2, 1.5)]
+        rec["noise"] = [G.rand_noise_spec(g) if g.random() < 0.7 else
+                        (["paramnoise", G.r2(g, -1, 1), G.r2(g, 0.2, 1.5)] if g.random() < 0.6 else
+                         ["replay", [G.r2(g, -2, 2) for _ in range(g.randint(3, 7))]])
                         for _ in range(p)]
     if invalid:
         rec["invalid"] = True
@@ -999,6 +1017,8 @@ def gen_m_call(g, gs, cfg, mid, force_method=None):
         a = {"do": G.lganm_ivs(g, p), "shift": G.lganm_ivs(g, p), "noise": G.lganm_ivs(g, p)}
         if g.random() < 0.15:
             a["npkeys"] = True
+        if g.random() < 0.08:
+            a["defaultdict"] = True
         if g.random() < 0.06:
             k1, k2 = g.sample(["do", "shift", "noise"], 2)
             if isinstance(a[k1], list) and a[k1]:
@@ -1024,6 +1044,8 @@ def gen_m_call(g, gs, cfg, mid, force_method=None):
             for k in ("do", "shift", "noise"):
                 if isinstance(a[k], list) and a[k] and g.random() < 0.5:
                     a[k][0][1] = ["paramnoise", G.r2(g, -1, 1), G.r2(g, 0.2, 1.5)]
+        if g.random() < 0.08:
+            a["defaultdict"] = True
         rec["seed"] = g.choice(seeds + [None])
         if "callable.raise" in cfg["faults"] and g.random() < cfg["fault_rate"]:
             kind = g.choice(["do", "shift", "noise"])
